@@ -5,5 +5,7 @@ CONSTANTS
   QueryEps = {"query", "query_msgpack", "estimate", "arrow"}
   NoPrologue = {}
   Emit = FALSE
+  Retries = 2
+  RetrySwitchesPeer = FALSE
 INVARIANTS TypeOK Safety
 CHECK_DEADLOCK FALSE
